@@ -329,6 +329,16 @@ def run(ctx, repo, tier):
                            isinstance(x_.value, ast.Call) and isinstance(x_.value.func, ast.Attribute) and
                            x_.value.func.attr in ("split", "rsplit", "partition", "rpartition") and x_.value.args and
                            isinstance(x_.value.args[0], ast.Constant) and x_.value.args[0].value == ")" for x_ in ast.walk(e_))
+            if not by_close and isinstance(le[0].args[0], ast.Name):
+                # head, sep, tail = text.partition(')')
+                for a_ in ast.walk(rb.node):
+                    if isinstance(a_, ast.Assign) and len(a_.targets) == 1 and isinstance(a_.targets[0], ast.Tuple) and a_.targets[0].elts and \
+                            isinstance(a_.targets[0].elts[0], ast.Name) and a_.targets[0].elts[0].id == le[0].args[0].id and \
+                            isinstance(a_.value, ast.Call) and isinstance(a_.value.func, ast.Attribute) and \
+                            a_.value.func.attr in ("partition", "rpartition", "split", "rsplit") and a_.value.args and \
+                            isinstance(a_.value.args[0], ast.Constant) and a_.value.args[0].value == ")":
+                        by_close = True
+                        e_ = a_.value
             fixed = isinstance(e_, ast.Subscript) and isinstance(e_.slice, ast.Slice) and e_.slice.upper is not None and \
                 isinstance(e_.slice.upper, (ast.UnaryOp, ast.Constant)) and ".strip()" not in txt_ and ".rstrip()" not in txt_
             if by_close:
